@@ -33,7 +33,7 @@ const (
 	obState  = "oracle: state independence — a request served again later in the same process (after other requests, on other API values) gets its first-time answer"
 	keyF19a  = "F-19a-marshal-fallback-not-a-document"
 	keyF19b  = "F-19b-relationship-route-without-get-404"
-	ruleText = "cases = (generated resource schema, request); requests: method(10) × path depth 0..6 (known/unknown type, ids incl. empty/unicode/'relationships', relationship/attribute/unknown names) × 25 hand-picked Accept variants + systematic Accept sequences (all sequences of 1 and 2 instance kinds over 10 kinds in both orders, sampled length 3..5 with an acceptable and an unacceptable JSON:API instance at random positions, each in up to 5 line layouts) × 61 query-key variants + character-class probes (every ASCII character and its aliases modulo 2^7, 2^8, 2^16 in several blocks, Unicode look-alikes, invalid UTF-8 — at the first / inner / last / only position of the parameter family (implementation-specific, `page`, `sort` skeletons) and of bracketed names, after and before brackets; the same names as type / attribute / relationship names through NewSchema; as path segments) × 24 body families (matching/conflicting/undecodable) ; per schema a method×route grid and an Accept×query grid are enumerated, the rest is random; history dimension: per schema several confusable families (same Accept values split differently over header lines, same path with other method/Accept/query/body/spelling, same request on another schema) served in random order and again, plus a final re-serve pass over a sample of everything served (answers must equal the first-time answers). distinct = distinct (schema, abstract request); non-trivial = negotiation and the parameter check pass and the path's first component is a defined type at depth 1..4 (the request reaches the routing tree)"
+	ruleText = "cases = (generated resource schema, request); requests: method(10) × path depth 0..6 (known/unknown type, ids incl. empty/unicode/'relationships', relationship/attribute/unknown names) × 25 hand-picked Accept variants + systematic Accept sequences (all sequences of 1 and 2 instance kinds over 10 kinds in both orders, sampled length 3..5 with an acceptable and an unacceptable JSON:API instance at random positions, each in up to 5 line layouts) × 61 query-key variants + character-class probes (every ASCII character and its aliases modulo 2^7, 2^8, 2^16 in several blocks, Unicode look-alikes, invalid UTF-8 — at the first / inner / last / only position of the parameter family (implementation-specific, `page`, `sort` skeletons) and of bracketed names, after and before brackets; the same names as type / attribute / relationship names through NewSchema; as path segments) × 24 body families (matching/conflicting/undecodable) × request headers other than Accept on write routes with a fitting body (13 Content-Type variants incl. form-urlencoded / multipart / duplicated, 10 sets of method-override, encoding, conditional, forwarding, cookie headers; form-encoded bodies whose keys would be parameters) ; 40 % of the schemas share definition values (one *RelationshipDefinition / *AttributeDefinition / map under two names, in two types, in a second schema built later with the names rotated, after which the first schema's route grid is served again) ; per schema a method×route grid and an Accept×query grid are enumerated, the rest is random; history dimension: per schema several confusable families (same Accept values split differently over header lines, same path with other method/Accept/query/body/spelling, same request on another schema) served in random order and again, plus a final re-serve pass over a sample of everything served (answers must equal the first-time answers). distinct = distinct (schema, abstract request); non-trivial = negotiation and the parameter check pass and the path's first component is a defined type at depth 1..4 (the request reaches the routing tree)"
 )
 
 type harness struct {
@@ -47,7 +47,10 @@ type harness struct {
 	sample     []remembered
 	sampleRand *hx.Rand
 	served     int
-	families   int
+	// extraBefore: steps that precede every request of the current batch (a schema built later from the same
+	// definition pool, sharing.go); they become the history of a failure found in that batch
+	extraBefore []Step
+	families    int
 }
 
 type verdict struct {
@@ -126,7 +129,7 @@ func judge(c *Case, real Real, reply string) *verdict {
 	v.fails = documentOracles(c, real)
 	v.fails = append(v.fails, memberNameOracle(real)...)
 	if real.Panic == "" && real.Status != v.goRef {
-		v.fails = append(v.fails, failure{"ref-status", fmt.Sprintf("%s %q (accept %q, query %q, body %.120q) answered %d, RefStatus is %d", c.Req.Method, c.Req.Path, c.Req.Accept, c.Req.RawQuery, c.Req.Body, real.Status, v.goRef)})
+		v.fails = append(v.fails, failure{"ref-status", fmt.Sprintf("%s %q (accept %q, other headers %q, query %q, body %.120q) answered %d, RefStatus is %d", c.Req.Method, c.Req.Path, c.Req.Accept, c.Req.Headers, c.Req.RawQuery, c.Req.Body, real.Status, v.goRef)})
 	}
 	if reply == "" {
 		return v
@@ -391,6 +394,18 @@ func shrinkCandidates(c Case) []Case {
 			out = append(out, d)
 		}
 	}
+	if len(c.Req.Headers) > 0 {
+		d := clone()
+		d.Req.Headers = nil
+		out = append(out, d)
+		for i := range c.Req.Headers {
+			if len(c.Req.Headers) > 1 {
+				d := clone()
+				d.Req.Headers = append(d.Req.Headers[:i], d.Req.Headers[i+1:]...)
+				out = append(out, d)
+			}
+		}
+	}
 	if c.Req.RawQuery != "" {
 		d := clone()
 		d.Req.RawQuery, d.Req.QueryKind = "", "none"
@@ -456,7 +471,7 @@ func (h *harness) runBatch(w World, schema *jsonapi.Schema, reqs []ReqSpec, sour
 		comps := c.Req.components()
 		known := c.World.typ(comps[0]) != nil
 		nontrivial := c.Req.Inject == nil && v.goRef != 406 && known && len(comps) <= 4 && !(v.goRef == 400 && !queryAllSupported(&c.Req))
-		h.run.Case(shape+"|"+c.Req.sexp().String(), nontrivial)
+		h.run.Case(shape+"|"+c.Req.sexp().String()+headerKey(&c.Req), nontrivial)
 		h.run.Count("source:" + source)
 		h.run.Count(fmt.Sprintf("status:%d", real.Status))
 		h.run.Count("method:" + c.Req.Method)
@@ -495,6 +510,7 @@ func (h *harness) runBatch(w World, schema *jsonapi.Schema, reqs []ReqSpec, sour
 				h.recentWi, h.recentOK = len(h.worlds)-1, nil
 			}
 			if v.kind() != "" {
+				c.Before = append(c.Before, h.extraBefore...)
 				for _, q := range h.recentOK {
 					c.Before = append(c.Before, Step{Req: q})
 				}
@@ -680,7 +696,7 @@ func main() {
 		for i, b := range c.Before {
 			fmt.Printf("history %d: %s %q accept=%q query=%q body=%q\n", i+1, b.Req.Method, b.Req.Path, b.Req.Accept, b.Req.RawQuery, b.Req.Body)
 		}
-		fmt.Printf("replay: %s %q accept=%q query=%q body=%q\n", c.Req.Method, c.Req.Path, c.Req.Accept, c.Req.RawQuery, c.Req.Body)
+		fmt.Printf("replay: %s %q accept=%q headers=%q query=%q body=%q\n", c.Req.Method, c.Req.Path, c.Req.Accept, c.Req.Headers, c.Req.RawQuery, c.Req.Body)
 		fmt.Printf("implementation: %s\nraw body:       %s\nmodel:          %s\nRefStatus: go=%d lean=%d\n", v.realObs, v.real.Body, v.modelObs, v.goRef, v.leanRef)
 		fmt.Printf("verdict: kind=%q %s\n", v.kind(), v.what())
 		h.record(&c, v, 1)
@@ -725,12 +741,21 @@ func main() {
 	randomPer := run.Scale(2500, 3000)
 	for wi := 0; wi < worlds; wi++ {
 		r := run.Rand.Fork()
-		w := genWorld(r)
+		gen := func() World {
+			w := genWorld(r)
+			if r.Intn(100) < 40 {
+				// a schema whose definitions are shared between names / types / later schemas (sharing.go)
+				w.Share = fmt.Sprintf("pool-%d", wi)
+				genTwins(r, &w)
+			}
+			return w
+		}
+		w := gen()
 		schema, err := w.build()
 		for tries := 0; err != nil && tries < 20; tries++ {
 			// every generated name is a member name by the reference definition: NewSchema must accept
 			h.schemaRejected(w, err)
-			w = genWorld(r)
+			w = gen()
 			schema, err = w.build()
 		}
 		if err != nil {
@@ -754,6 +779,25 @@ func main() {
 		routes, nego := gridRequests(r, &w)
 		h.runBatch(w, schema, routes, "route-grid")
 		h.runBatch(w, schema, nego, "accept-query-grid")
+		h.runBatch(w, schema, headerRequests(r.Fork(), &w, run.Scale(8, 8)), "header-grid")
+		if w.Share != "" {
+			run.Count("world:shared-definitions")
+			// a second schema built later from the same pool, names rotated; then the first schema's routes again
+			v := variantOf(w)
+			if vs, err := v.build(); err == nil {
+				vr, _ := gridRequests(r.Fork(), &v)
+				h.worlds = append(h.worlds, worldEntry{w: v, schema: vs, sexp: v.sexp().String()})
+				h.runBatch(v, vs, vr, "route-grid-of-rebuilt-variant")
+				h.worlds = append(h.worlds, worldEntry{w: w, schema: schema, sexp: w.sexp().String()})
+				widx = len(h.worlds) - 1
+				first := ReqSpec{Method: "GET", Path: "/", Accept: acceptVariants[0].lines}
+				h.extraBefore = []Step{{Req: first}, {World: &v, Req: first}}
+				h.runBatch(w, schema, routes, "route-grid-after-rebuild")
+				h.extraBefore = nil
+			} else {
+				h.schemaRejected(v, err)
+			}
+		}
 		h.runBatch(w, schema, acceptSequenceRequests(r, &w, run.Scale(60, 150)), "accept-sequences")
 		ccParts := run.Scale(charclassParts, 3*charclassParts) // quick: the whole family once per run; thorough: ten times
 		h.runBatch(w, schema, charclassRequests(r.Fork(), &w, wi%ccParts, ccParts), "charclass-probes")
